@@ -14,13 +14,15 @@ EXTENDS FsBase
 
 AllDevs == {"C05.dup_names_tuple_width"}
 
-Shapes == {"one", "three", "dup", "aliasdup", "quoted", "types"}
+Shapes == {"one", "three", "dup", "aliasdup", "quoted", "types", "dml"}
 Names(sh) == CASE sh = "one"      -> <<"A">>
                [] sh = "three"    -> <<"A", "B", "C">>
                [] sh = "dup"      -> <<"A", "A">>
                [] sh = "aliasdup" -> <<"X", "B", "X">>
                [] sh = "quoted"   -> <<"My Col", "a">>
                [] sh = "types"    -> <<"ID", "S", "F", "B", "D", "TS", "N">>
+               \* the one-row status result of a DML statement; its only cell is the affected count
+               [] sh = "dml"      -> <<"number of rows inserted">>
 Width(sh) == Len(Names(sh))
 
 NoCursor == [cur |-> "none", open |-> FALSE, n |-> 0, idx |-> 0, asz |-> 1, sh |-> "one", rc |-> -1]
@@ -66,7 +68,15 @@ Steps(st, op, D) ==
   CASE op.k = "open" ->
          LET s2 == [NoCursor EXCEPT !.cur = IF op.dict THEN "dict" ELSE "tuple"] IN {R(s2, Plain("ok", s2))}
     [] op.k = "exec" ->
-         LET s2 == [st EXCEPT !.open = TRUE, !.n = op.n, !.idx = 0, !.sh = op.sh, !.rc = op.n] IN
+         \* via "x": cursor.execute; "s1" / "s2": the statement is the first / last of a two-statement script given to
+         \* connection.execute_string, and the cursor returned for it becomes the current cursor (a new cursor of the same
+         \* class, default arraysize) - every statement of a script has its own cursor and its own result
+         LET s2 == [st EXCEPT !.open = TRUE, !.n = op.n, !.idx = 0, !.sh = op.sh, !.rc = op.n,
+                              !.asz = IF op.via = "x" THEN @ ELSE 1] IN
+         {R(s2, Plain("ok", s2))}
+    [] op.k = "dml" ->
+         \* a DML statement affecting op.a rows: one status row holding the count, rowcount = the count
+         LET s2 == [st EXCEPT !.open = TRUE, !.n = 1, !.idx = 0, !.sh = "dml", !.rc = op.a] IN
          {R(s2, Plain("ok", s2))}
     [] op.k = "execfail" ->
          \* the property only says a NEW result replaces the old one; a failed execute may keep or drop it
@@ -93,10 +103,10 @@ Steps(st, op, D) ==
          {R(st, Obs("descr", <<>>, <<>>, Names(st.sh), st.rc))}
 
 \* ---- operations offered in a state (generator vocabulary) ----
-CONSTANTS MaxN, MaxK, MaxA, ShapesUsed
+CONSTANTS MaxN, MaxK, MaxA, ShapesUsed, ViaUsed
 Ops(st) ==
   IF st.cur = "none" THEN [k : {"open"}, dict : BOOLEAN]
-  ELSE [k : {"exec"}, n : 0..MaxN, sh : ShapesUsed] \cup [k : {"execfail", "one", "manydef", "all", "pandas"}]
+  ELSE [k : {"exec"}, n : 0..MaxN, sh : ShapesUsed, via : ViaUsed] \cup [k : {"dml"}, a : 0..2] \cup [k : {"execfail", "one", "manydef", "all", "pandas"}]
        \cup [k : {"many"}, size : 1..MaxK] \cup [k : {"asz"}, a : 1..MaxA]
        \cup (IF st.open THEN [k : {"descr"}] ELSE {})
 
@@ -108,6 +118,6 @@ StepOk(st, op, r) ==
         /\ r.post.idx <= st.n /\ r.post.idx >= st.idx
         /\ (op.k = "all" => r.post.idx = st.n)
         /\ (r.obs.rows # <<>> /\ st.cur = "tuple" => Len(r.obs.cols) = Width(st.sh))
-  /\ (op.k \notin {"exec", "execfail", "open"} => r.post.n = st.n /\ r.post.sh = st.sh /\ r.post.open = st.open)
+  /\ (op.k \notin {"exec", "dml", "execfail", "open"} => r.post.n = st.n /\ r.post.sh = st.sh /\ r.post.open = st.open)
   /\ (op.k = "descr" => r.post = st)
 =============================================================================
